@@ -631,6 +631,21 @@ def _source_list_ok(fm: FuncModel, osv: ast.AST, at, node_param: str) -> list[st
             continue
         v = a.value
         if isinstance(v, ast.List) and not v.elts:
+            # "no source variables" may reach the solver only when the node is not the root: on every path from this
+            # definition to the call that passes no other definition, the root test has failed
+            from .common import paths_imply
+            others = {x.id for x in fm.cfg.nodes if x.kind == "stmt" and x is not d and osv.id in fm.cfg.defs_of(x)}
+            want = logic.Not(logic.B(f"eq:{'|'.join(sorted(['ROOT', node_param]))}"))
+            try:
+                bad = paths_imply(fm, d, at, want, None, stop=others, canon=True)
+            except Exception:  # noqa
+                bad = "paths too many to enumerate"
+            pcd = fm.pc(d)
+            rooted = logic.B(f"eq:{'|'.join(sorted(['ROOT', node_param]))}")
+            if bad and not logic.implies(pcd, logic.Not(rooted)):
+                problems.append(f"line {d.lineno}: the source list is emptied on a path that the root can take ({str(bad)[:120]}): "
+                                f"the root is then expanded input by input instead of by input valuations, and the diagram "
+                                f"differs from the reference diagram")
             continue
         if isinstance(v, ast.Call) and callee_name(v) == "extract_source_variables":
             pc = fm.pc(d)
